@@ -41,13 +41,80 @@ NEEDS = {
  "C18-v1": "SetCookie escapes with PathEscape: a cookie value containing '+'",
  "C18-v2": "QueryInt64 returns the default on parse errors: a present, non-empty, unparsable value together with a supplied default",
 }
+
+NEEDS.update({
+ "r2-C01-v1": "pruning bound of a mid-route match-all set only when its subtree is created: two routes share the same mid match-all, the one with the longer continuation registered first, request for the shorter one",
+ "r2-C01-v2": "match-all leaf uniqueness check moved after the optional block: '/files/?{rest: **}' is rejected after '/files/{paths: **}' but its short form '/files' stays registered and serves",
+ "r2-C02-v1": "capture groups counted by a scanner that ignores character classes: an earlier bind with a class containing balanced parentheses such as [a-z()] followed by a bind with its own groups",
+ "r2-C02-v2": "reserved parameter route set before the matched values are copied: a bind literally named 'route' that is matched, or tried and abandoned before the winner",
+ "r2-C03-v1": "group handler slice aliasing (nested groups with spare capacity, >= 2 sibling routes)",
+ "r2-C03-v2": "Done channel of the request context cached: a handler installs a derived context on the request and cancels that one",
+ "r2-C04-v1": "implementor memo cleared by Map/MapTo but not by Set: resolve I through K, Set(K, new), resolve I again",
+ "r2-C04-v2": "func(Context) fast path bypasses the injector after a request-scope re-registration of Context",
+ "r2-C05-v1": "implementor lookup memoised into the shared application injector: concurrent first resolutions of an interface through a concrete application service (race detector)",
+ "r2-C05-v2": "single-entry URL template cache keyed by withOptional: concurrent URL builds with and without withOptional for a named route with an optional segment",
+ "r2-C06-v1": "parse cache keyed by a lossy spacing normalisation: the same parser parses two routes that differ only in blanks after ',' inside a regex value",
+ "r2-C06-v2": "separator state leaks across elements in Segment.String: two parameter lists in one segment",
+ "r2-C07-v1": "HeaderMatcher reads vals[0] of a raw map lookup: a constrained header present with an empty value list on a request that reaches the constrained leaf",
+ "r2-C07-v2": "NotFound() with zero handlers installs http.NotFound directly: application middleware does not run for unmatched requests",
+ "r2-C08-v1": "'{**}' misclassified during subtree lookup: two valid routes sharing a non-final '{**}' segment - the second is rejected",
+ "r2-C08-v2": "'under a match-all' flag not set for regex trees: two non-final match-alls separated by a regex segment are accepted",
+ "r2-C09-v1": "short path of an optional-static route also stored in the shortcut table, Headers() evicts only the long key",
+ "r2-C09-v2": "':=' shadowing leaves the short-form leaf of a single-segment optional route unlinked: '/?x' with Headers(), request for '/'",
+ "r2-C10-v1": "Routes() keys the returned leaves by the caller's method spelling: Routes(path, \"get,post\").Headers() on a static route evicts nothing",
+ "r2-C10-v2": "both request paths of an optional-static route stored in the shortcut table, Headers() evicts only the long one",
+ "r2-C11-v1": "group handler slice aliasing",
+ "r2-C11-v2": "AutoHead registers HEAD under the URL-building template: GET route with a regex bind, match-all options or optional mark while AutoHead is on, HEAD request that tells the patterns apart",
+ "r2-C12-v1": "offset 0 used as 'no optional segment' sentinel: a named route whose only segment is optional, built without withOptional",
+ "r2-C12-v2": "static fast path in URLPath ignores withOptional: fully static named route ending in an optional segment",
+ "r2-C13-v1": "status stored by CompareAndSwap before the before-functions run",
+ "r2-C13-v2": "zero-length first write does not commit status 200",
+ "r2-C14-v1": "ReturnHandler resolved once per request and cached: value returned, then request-scope mapping, then another value returned",
+ "r2-C14-v2": "1xx status codes forwarded without marking the response written: (1xx, x) return values let the chain continue",
+ "r2-C15-v1": "Recovery returns without writing when the request context is done: panic after the context was cancelled",
+ "r2-C15-v2": "httpHandlerFuncInvoker swallows http.ErrAbortHandler: that value panicked from a net/http-shaped handler",
+ "r2-C16-v1": "prefix boundary check made unreachable by cleaning first: '<prefix><name>' without a slash",
+ "r2-C16-v2": "'index must not be a directory' test lost: slash-terminated directory whose index entry is itself a directory",
+ "r2-C17-v1": "one render value per Renderer instance: nested or overlapping requests",
+ "r2-C17-v2": "JSON/XML return before WriteHeader on HEAD requests: HEAD + non-200 status",
+ "r2-C18-v1": "Query accessors read the merged form once it has been parsed: POST with a urlencoded body after ParseForm",
+ "r2-C18-v2": "memoised cookie is unescaped again on every read: the same cookie read twice in one request, value with '+' or '%XX'",
+ "r3-T1-v1": "maintenance commit (matching performance): minimum-remaining-segments pruning counts a final optional segment - '/repos/{path: **}/tree/?{ref}' requested in its short form",
+ "r3-T1-v2": "maintenance commit (header check hoisted into callers): the match-all leaf fallback lost it - constrained route ending in a match-all, request spanning >= 2 segments without the header",
+ "r3-T2-v1": "maintenance commit (group scopes precomputed): handler slice aliasing between sibling routes of a nested group",
+ "r3-T2-v2": "maintenance commit (one table per method): a shortcut miss goes straight to not-found when the method has only static routes - extra or missing leading slashes",
+ "r3-T3-v1": "maintenance commit (run loop split): Done channel fetched once per loop - derived request context cancelled mid-chain",
+ "r3-T3-v2": "maintenance commit (fast invokers called directly): only Set/MapTo on the context are watched - *http.Request re-mapped with Map, or writer re-mapped through the TypeMapper a Map call returns",
+ "r3-T4-v1": "maintenance commit (response helpers): empty-body guard runs before the error branch - non-nil error with empty message",
+ "r3-T4-v2": "maintenance commit (io.StringWriter support): WriteString lacks the HEAD short-circuit - string bodies on HEAD requests reach the underlying writer",
+ "r3-T5-v1": "maintenance commit (Static split into helpers): index entry that is a directory is served",
+ "r3-T5-v2": "maintenance commit (Recovery responders): environment read at construction",
+ "r3-T6-v1": "maintenance commit (lexer/grammar tidy-up): Whitespace* accepts tab/newline after ':' and ','",
+ "r3-T6-v2": "maintenance commit (URL template cached on the AST): \"\" used as sentinel - route consisting of one optional segment built without withOptional",
+})
+for i, (c, what) in enumerate([("16996b9", "C02"), ("b1ad9ca", "C02"), ("dc445d8", "C08"), ("50e6683", "C12"), ("8943820", "C09"), ("e71688c", "C10"), ("c547909", "C08"), ("4ac932e", "C09"), ("356c62b", "C03"), ("f4314d8", "C14"), ("9fed95b", "C11"), ("788edcd", "C10"), ("be19d8a", "C17")], 1):
+    NEEDS["rev-F%02d" % i] = "reverse of fix commit %s: the defect as it was in the pinned tree (see known_findings.txt and DESIGN.md section 6)" % c
+REVPROP = {"rev-F01": "C02", "rev-F02": "C02", "rev-F03": "C08", "rev-F04": "C12", "rev-F05": "C09", "rev-F06": "C10", "rev-F07": "C08", "rev-F08": "C09", "rev-F09": "C03", "rev-F10": "C14", "rev-F11": "C11", "rev-F12": "C10", "rev-F13": "C17"}
+
 for d in sorted(glob.glob(os.path.join(VERIF, "seeded", "*"))):
     name = os.path.basename(d)
     mp = os.path.join(d, "meta.json")
     if not os.path.exists(mp):
         continue
     m = json.load(open(mp))
-    m["property"] = name.split("-")[0] if not name.startswith("rev") else m.get("property", "")
+    if name.startswith("rev-"):
+        m["property"] = REVPROP.get(name, "")
+        m["source"] = "reverse of a fix: commit in /repo (the defect found by this harness)"
+    elif name.startswith("r2-"):
+        m["property"] = name.split("-")[1]
+        m["source"] = "independent sub-agent, second round (asked for less obvious sites)"
+    elif name.startswith("r3-"):
+        notes = os.path.join(d, "notes.md")
+        first = open(notes).readline() if os.path.exists(notes) else ""
+        m["property"] = first.replace("property:", "").strip()[:3]
+        m["source"] = "independent sub-agent, third round (multi-function maintenance commit with one slip)"
+    else:
+        m["property"] = name.split("-")[0]
     if name in NEEDS:
         m["needs"] = NEEDS[name]
     m.setdefault("source", "independent sub-agent given only the property text and a scratch worktree")
